@@ -150,6 +150,29 @@ theorem C17c_permSpec_iff (n : Nat) (g : α) (t1 t2 : List α) :
   · rintro ⟨⟨⟨a, b⟩, _, c⟩, d⟩; exact ⟨a, b, c, d⟩
   · rintro ⟨a, b, c, d⟩; exact ⟨⟨⟨a, b⟩, by omega, c⟩, d⟩
 
+/-- `isSubset` decides "every looked-up value is in the table" -/
+theorem C17c_isSubset_iff (f t : List α) : isSubset F f t = true ↔ ∀ x ∈ f.map φ, x ∈ t.map φ := by
+  unfold isSubset
+  simp only [List.all_eq_true, List.any_eq_true, h.beq, List.mem_map]
+  constructor
+  · rintro hs _ ⟨x, hx, rfl⟩
+    obtain ⟨y, hy, e⟩ := hs x hx
+    exact ⟨y, hy, e.symm⟩
+  · intro hs x hx
+    obtain ⟨y, hy, e⟩ := hs (φ x) ⟨x, hx, rfl⟩
+    exact ⟨y, hy, e.symm⟩
+
+/-- the verdict of the model on a `plookup … mut=consist` line -/
+theorem C17c_plkSpec_iff (n : Nat) (g : α) (f t : List α) :
+    plkSpec F n g f t = true ↔
+      2 ≤ n ∧ (∃ k, 2 ^ k = n) ∧ orderOf (φ g) = n ∧ ∀ x ∈ f.map φ, x ∈ t.map φ := by
+  unfold plkSpec
+  rw [Bool.and_eq_true, Bool.and_eq_true, Bool.and_eq_true, decide_eq_true_eq, C17c_isPow2_iff,
+    C17c_isPrimRoot_iff h, C17c_isSubset_iff h]
+  constructor
+  · rintro ⟨⟨⟨a, b⟩, _, c⟩, d⟩; exact ⟨a, b, c, d⟩
+  · rintro ⟨a, b, c, d⟩; exact ⟨⟨⟨a, b⟩, by omega, c⟩, d⟩
+
 /-- CORRELATED FORGERIES: the model's `SameRatioMany` verdict is the exact statement, for every pair of a G1 slice and a
 G2 slice and every pair of positions — in particular whatever relation (equal, proportional, …) links the two groups -/
 theorem C17c_sameRatioMany_sound (g1s g2s : List (List α)) (hacc : sameRatioMany F g1s g2s = true)
